@@ -375,6 +375,10 @@ func forRof(f *forExpander) forStateFn {
 func forEmitConsumeStream(f *forExpander) forStateFn {
 	for f.nextToken.typ != tokEOF {
 		f.tokens <- f.nextToken
+		if f.nextToken.typ == tokError {
+			// the error token ends the input: next() would not advance past it
+			return nil
+		}
 		f.next()
 	}
 	return nil
